@@ -223,3 +223,19 @@ theorem C12_ip_family_counterexample :
   constructor
   · rfl
   · simp [FlowRecord.FieldPack.packT]
+
+/-- IN-PLACE EDITS: a typed list that received plain elements after the record was built (`rec.paths.append("x")`)
+    packs - and therefore compares and hashes, `C12_eq_iff` - exactly like the list that held the converted elements
+    from the start. The hypothesis that `typedlist._pack` converts before packing is the regenerated source fact. -/
+theorem C12_inplace_elements_same_pack {R : Type} (conv : R → Option FlowRecord.FieldPack.TVal)
+    (k : FlowRecord.FieldPack.Kind) (xs : List (FlowRecord.FieldPack.TVal ⊕ R)) (ts : List FlowRecord.FieldPack.TVal)
+    (h : FlowRecord.FieldPack.heldValues conv xs = some ts) :
+    (FlowRecord.FieldPack.packHeld conv k xs).map FlowRecord.Wire.PV.seq
+      = FlowRecord.FieldPack.packT (.list k) (.list ts) := by
+  have hgen : FlowRecord.Gen.typedlistPackConvertsRaw = true := by decide
+  rw [FlowRecord.FieldPack.packHeld_eq conv k hgen xs ts h]
+  simp [FlowRecord.FieldPack.packT]
+
+-- non-vacuity: a path list holding one typed element and one plain text appended in place
+example : FlowRecord.FieldPack.heldValues (R := List Nat) (fun t => some (.path 0 t))
+    [.inl (.path 0 [47, 97]), .inr [47, 98]] = some [.path 0 [47, 97], .path 0 [47, 98]] := by rfl
